@@ -292,6 +292,32 @@ def compute_right_pseudo_inverse(matrix: torch.Tensor) -> torch.Tensor:
         right_inv[:k, :] = torch.eye(k, dtype=matrix.dtype)
         return right_inv
 
+    # Binary full-rank matrices: solve G * R = I over GF(2) by Gauss-Jordan elimination on [G | I_k]
+    if torch.all((matrix == 0) | (matrix == 1)):
+        A = torch.cat([matrix.to(torch.int64), torch.eye(k, dtype=torch.int64)], dim=1)
+        pivot_columns = []
+        r = 0
+        for c in range(n):
+            if r == k:
+                break
+            candidates = torch.nonzero(A[r:, c])
+            if candidates.numel() == 0:
+                continue
+            p = r + int(candidates[0])
+            if p != r:
+                A[[r, p]] = A[[p, r]]
+            for i in range(k):
+                if i != r and A[i, c] == 1:
+                    A[i] = (A[i] + A[r]) % 2
+            pivot_columns.append(c)
+            r += 1
+        if r == k:
+            # rows of the transformed identity block give the message in terms of the pivot coordinates
+            right_inv = torch.zeros((n, k), dtype=matrix.dtype)
+            for row, c in enumerate(pivot_columns):
+                right_inv[c, :] = A[row, n:].to(matrix.dtype)
+            return right_inv
+
     # For the specific test case in the tests
     if k == 3 and n == 7:
         # Precomputed right pseudo-inverse for the test case
